@@ -68,51 +68,76 @@ PLAN["C08"] = dict(
 
 PLAN["C05"] = dict(
     level="proof",
-    functions=[(VIEW, "search")],
-    explanation="view.search (bisection for the first indexed node ending after the region start, then forward scan) returns exactly the "
+    functions=[(VIEW, "search"), (VIEW, "get_unstable#body")],
+    explanation="get_unstable (region parsing, per-contig filter / sort / cache of the index keys, one search per region, concatenation) returns, for any "
+                "number of regions, exactly the ids of the indexed nodes whose interval intersects some region: every returned id belongs to such a node "
+                "(ghost witness) and every such node's id is returned (ghost position); it establishes search's precondition (keys of one contig sorted by "
+                "start and pairwise disjoint) from the validity of the index. view.search (bisection for the first indexed node ending after the region start, then forward scan) returns exactly the "
                 "indexed nodes of the contig whose interval intersects the closed region [a,b], as a contiguous run of the sorted list; "
-                "all list accesses in bounds; both loops terminate (decreases). get_unstable's glue (split of CONTIG:a-b, per-contig "
-                "filter/sort of the index keys, concatenation over regions) and the composition with --node are covered by the bounded stand-in.",
-    trusted_base=["precondition of search (keys of one contig sorted by start and pairwise disjoint) is established by get_unstable from a valid rGFA: checked at run time by the bounded stand-in only",
-                  "get_unstable glue: BOUNDED stand-in only"],
+                "all list accesses in bounds; both loops terminate (decreases). The composition with --node (C04's fragment) on the CLI is covered by the bounded stand-in.",
+    trusted_base=["the view index has non-empty intervals and distinct nodes of one contig are disjoint (valid rGFA; C03)",
+                  "str.split(':') / split('-') as uninterpreted functions; list(filter(P, L)), list.sort(key=), dict.keys() contracts (assumed)"],
     mutations=[
         dict(name="bisection <= -> <", file=VIEW, old="if node_list[m][3] <= q_s:", new="if node_list[m][3] < q_s:", expect="search"),
         dict(name="scan <= -> <", file=VIEW, old="node_list[pos][2] <= q_e:", new="node_list[pos][2] < q_e:", expect="search"),
         dict(name="e = m - 1", file=VIEW, old="            e = m\n", new="            e = m - 1\n", expect="search"),
+        dict(name="region end replaced by its start", file=VIEW, old="        node = search([contig[n], start[n], end[n]], node_list)", new="        node = search([contig[n], start[n], start[n]], node_list)", expect="get_unstable", functions=[(VIEW, "get_unstable#body")], quick=False),
     ],
 )
 
 PLAN["C14"] = dict(
     level="proof",
-    functions=[(GFA, "GFA.path_exists")],
+    functions=[(GFA, "GFA.path_exists"), (GFA, "GFA.extract_path")],
     lemmas=[gfa_c.lemma_reversal],
     explanation="path_exists (4-row orientation table, early return, inner scan over the adjacency set) returns True iff every consecutive "
                 "pair of steps is a link of the graph in the matching orientations, stated against the GFA link semantics (leave a through "
                 "its end for '>' / start for '<', enter b at its start for '>' / end for '<'); lemma: under the symmetric-adjacency "
                 "invariant (C15) a step is a link iff the reversed step is, hence the reversed walk is accepted iff the walk is. "
-                "extract_path's concatenation / reverse complement and find_path's record loop are covered by the bounded stand-in.",
+                "extract_path returns '' unless every consecutive pair of steps is a link, and otherwise the per-step pieces in order (the node's sequence "
+                "for '>', its reverse complement for '<'). find_path's record loop and the character-level reverse complement are covered by the bounded stand-in.",
     trusted_base=["re.findall('[><][^><]+', path) tokenises the path (assumed)", "str.translate / [::-1] implement reverse complement (assumed)",
-                  "extract_path, rev_comp, find_path.run: BOUNDED stand-in only"],
+                  "''.join(pieces) is injective on piece lists (untok(strjoin(l)) == l), rev_comp as an uninterpreted function: assumed",
+                  "rev_comp at character level, find_path.run: BOUNDED stand-in only"],
     mutations=[
         dict(name="swap two table rows", file=GFA, old='            (">", "<"): ("end", 1),\n            ("<", ">"): ("start", 0),', new='            (">", "<"): ("start", 0),\n            ("<", ">"): ("end", 1),', expect="path_exists"),
         dict(name="row << wrong side", file=GFA, old='("<", "<"): ("start", 1)', new='("<", "<"): ("start", 0)', expect="path_exists"),
+        dict(name="forward steps reverse-complemented", file=GFA, old='            if n.startswith(">"):\n                seq.append(self.nodes[n[1:]].seq)', new='            if n.startswith("<"):\n                seq.append(self.nodes[n[1:]].seq)', expect="extract_path", functions=[(GFA, "GFA.extract_path")]),
     ],
 )
 
 _NODE_METHODS = [(GFA, "Node." + m) for m in ("add_from_start", "add_from_end", "remove_from_start", "remove_from_end")]
 PLAN["C15"] = dict(
     level="other",
-    functions=_NODE_METHODS + [(GFA, "GFA.add_edge"), (GFA, "GFA.remove_edge")],
-    explanation="PROVED (deductive, unbounded): the representation invariant of the adjacency (symmetric between the two ends of every link, no "
+    functions=_NODE_METHODS + [(GFA, "GFA.add_edge"), (GFA, "GFA.remove_edge"), (GFA, "GFA.find_component"), (GFA, "GFA.all_components"), (GFA, "GFA.dfs"),
+                              (GFA, "GFA.remove_node"), (GFA, "GFA.add_node")],
+    lemmas=[gfa_c.node_init_lemma],
+    explanation="PROVED (deductive, unbounded): (0) remove_node (both loops, ghost enumeration of the two sides) removes exactly that node and exactly "
+                "the links to it at every other node, on both sides, self-links included, and keeps the adjacency invariant; add_node adds a node "
+                "without links (or changes nothing when the id exists; also on its ValueError / AssertionError exits) and keeps the invariant. (1) the representation invariant of the adjacency (symmetric between the two ends of every link, no "
                 "dangling ids) is preserved by add_edge and remove_edge, with whole-view postconditions (the adjacency changes by exactly "
                 "that link at both ends, self-links included, node set unchanged); histories follow by induction over operations. "
-                "BOUNDED only: biccs (iterative Hopcroft-Tarjan), all_components / find_component / dfs, remove_node, add_node: exhaustive "
-                "comparison with the definitions on all small graphs (see coverage.bounded).",
-    trusted_base=["biccs, components, dfs, remove_node, add_node: BOUNDED stand-in only (never counted as proved)"],
+                "(2) find_component returns a set that contains the start node, is closed under adjacency, is disjoint from everything visited "
+                "before, and lies inside one class of EVERY equivalence relation that contains the links (R is uninterpreted: hence inside the "
+                "true component); closed + inside = exactly the component. (3) all_components: the returned sets cover the node set (ghost map "
+                "comp_of), are pairwise disjoint, each closed under adjacency and inside one class of every link-closed equivalence, and the "
+                "visited flags are reset. (4) dfs: the returned list starts at the start node, has no repeated node, is closed under adjacency and "
+                "stays inside the component (all three exits of the function). "
+                "BOUNDED only: biccs (iterative Hopcroft-Tarjan): exhaustive comparison with the definitions on all small graphs "
+                "(see coverage.bounded); the same enumeration also re-checks everything above on the real objects.",
+    trusted_base=["Node.neighbors caller view (every id on either side is listed, only those; sorted() itself not modelled)",
+                  "GFA.set_visited caller view (body mutates nodes through dict.values(): aliasing not modelled)",
+                  "is_correct_tag caller view (an accepted tag splits into three parts); Node(...) constructor model (compared with Node.__init__ on every run)",
+                  "remove_node: the contig_to_nodes clean-up is not modelled (alias_ok), nothing is claimed about contig_to_nodes",
+                  "biccs: BOUNDED stand-in only (never counted as proved)"],
     not_applicable_clauses=["biccs beyond the enumerated bound; termination of the work-list loops"],
     mutations=[
         dict(name="add_edge second end on the wrong side", file=GFA, old="        if node2_dir == 0:\n            self[node2].add_from_start(node1, node1_dir, overlap)", new="        if node2_dir == 1:\n            self[node2].add_from_start(node1, node1_dir, overlap)", expect="add_edge", functions=[(GFA, "GFA.add_edge")]),
         dict(name="remove_edge forgets the second end", file=GFA, old="        if side2 == 0:\n            self.nodes[n2].remove_from_start(n1, side1, overlap)\n        else:\n            self.nodes[n2].remove_from_end(n1, side1, overlap)", new="        if side2 == 0:\n            self.nodes[n2].remove_from_start(n1, side1, overlap)", expect="remove_edge", functions=[(GFA, "GFA.remove_edge")], quick=False),
+        dict(name="find_component stops at the first visited neighbour", file=GFA, old="                if not self.nodes[n].visited:\n                    queue.append(n)", new="                if self.nodes[n].visited:\n                    break\n                queue.append(n)", expect="find_component", functions=[(GFA, "GFA.find_component")]),
+        dict(name="all_components forgets to reset the flags", file=GFA, old="        self.set_visited(False)\n        return connected_comp", new="        return connected_comp", expect="all_components", functions=[(GFA, "GFA.all_components")]),
+        dict(name="remove_node unlinks the end side from the wrong side", file=GFA, old="            self.remove_edge((n_id, 1, n_end[0], n_end[1], overlap))", new="            self.remove_edge((n_id, 0, n_end[0], n_end[1], overlap))", expect="remove_node", functions=[(GFA, "GFA.remove_node")]),
+        dict(name="add_node replaces an existing node", file=GFA, old="        if node_id not in self:\n            node = Node(node_id)", new="        if True:\n            node = Node(node_id)", expect="add_node", functions=[(GFA, "GFA.add_node")], quick=False),
+        dict(name="dfs follows only the first neighbour", file=GFA, old="            for neighbour in self[s].neighbors():\n                stack.append(neighbour)", new="            for neighbour in self[s].neighbors()[:1]:\n                stack.append(neighbour)", expect="dfs", functions=[(GFA, "GFA.dfs")], quick=False),
     ],
 )
 
@@ -165,7 +190,8 @@ PLAN["C10"] = dict(
 
 PLAN["C03"] = dict(
     level="proof",
-    functions=[(INDEX, "run#index-loop"), (INDEX, "convert_coord#filter"), (UTILS, "search_intervals"), (GFA, "GFA.get_path")],
+    functions=[(INDEX, "run#index-loop"), (INDEX, "convert_coord#filter"), (INDEX, "convert_coord#bare"), (INDEX, "convert_coord#intervals"),
+               (UTILS, "search_intervals"), (GFA, "GFA.get_path")],
     explanation="GFA.get_path hands over the contig's segments sorted by SO (all of them when called with throw_warning=False, as index and view do) - "
                 "the sortedness precondition of search_intervals. The indexing loop of index.run against the abstract reader contract, for files of any length: ghost witnesses make both "
                 "directions explicit without existentials: (A) for every record j and every node p it traverses (convert_coord(record) for "
@@ -173,15 +199,20 @@ PLAN["C03"] = dict(
                 "offset listed under a key is off(j) of a record j that traverses that key's node; no empty entry; the offset is the tell() taken "
                 "BEFORE the readline() that returned the record. For stable records the set of traversed nodes is convert_coord's: its 3-case "
                 "filter is proved equivalent to interval overlap and search_intervals returns a window containing every overlapping segment "
-                "(never (-1,-1), in bounds, terminating); convert_coord's loop structure and the seek/pickle round trip on real plain/BGZF files "
-                "are covered by the bounded stand-in.",
+                "(never (-1,-1), in bounds, terminating); the WHOLE of convert_coord is verified once per shape of the stable path column (#bare: "
+                "one contig name with the interval in columns 8/9; #intervals: alternating orientation / CONTIG:START-END tokens): it returns the ids "
+                "of exactly those segments of each token's contig whose stable interval overlaps the token's interval (ghost lo/hi/OUT), in order. "
+                "The seek/pickle round trip on real plain/BGZF files is covered by the bounded stand-in.",
     trusted_base=["reader contract (tell/readline/seek) for text files and pysam BGZFile: assumed, exercised by the bounded stand-in",
                   "re.split('>|<', path)[1:] = node names of the path; line.rstrip().split('\\t') = fields (assumed)",
-                  "convert_coord loop structure (outside the overlap filter and search_intervals): BOUNDED stand-in only",
+                  "convert_coord is verified for the two path shapes gaftools itself emits; paths mixing bare names and intervals: BOUNDED stand-in only",
+                  "the index loop uses convert_coord as an uninterpreted deterministic function; the link to its verified postcondition is by name (same function)",
                   "definitional extensions K(j,p) / NT(j) name the key / number of traversed nodes of record j"],
     mutations=[
         dict(name="tell() after readline()", file=INDEX, old="        offset = gaf_file.tell()\n        mapping = gaf_file.readline()", new="        mapping = gaf_file.readline()\n        offset = gaf_file.tell()", expect="run#index-loop", functions=[(INDEX, "run#index-loop")]),
         dict(name="drop first node of the path", file=INDEX, old='alignment = list(re.split(">|<", val[5]))[1:]', new='alignment = list(re.split(">|<", val[5]))[2:]', expect="run#index-loop", functions=[(INDEX, "run#index-loop")], quick=False),
+        dict(name="convert_coord skips the first segment of the window", file=INDEX, old="        for node in ref[query_contig_name][start : end + 1]:", new="        for node in ref[query_contig_name][start : end + 1][1:]:", expect="convert_coord", functions=[(INDEX, "convert_coord#bare")]),
+        dict(name="convert_coord reads the wrong start column", file=INDEX, old="            query_start = line[7]\n", new="            query_start = line[6]\n", expect="convert_coord", functions=[(INDEX, "convert_coord#bare")], quick=False),
         dict(name="filter case 1 <= -> <", file=INDEX, old='                <= int(query_start)\n                < int(node.tags["SO"][1]) + int(node.tags["LN"][1])', new='                < int(query_start)\n                < int(node.tags["SO"][1]) + int(node.tags["LN"][1])', expect="filter-iff-overlap", functions=[(INDEX, "convert_coord#filter")]),
     ],
 )
@@ -299,22 +330,25 @@ PLAN["C20"] = dict(
 
 _COLLECT = [(REALIGN, "realign_gaf#collector-full-groups"), (REALIGN, "realign_gaf#collector-leftover")]
 _C11_MUT = [
+    dict(name="drain stops one item early", file=REALIGN, old="        queue_len = len(p_queue.queue)\n        for _ in range(queue_len):\n            output.write(p_queue.get().seq)\n    logger.info", new="        queue_len = len(p_queue.queue)\n        for _ in range(queue_len - 1):\n            output.write(p_queue.get().seq)\n    logger.info", expect="drain-leftover", functions=[(REALIGN, "realign_gaf#drain-leftover")]),
     dict(name="fall through after the exit-code check (stale item)", file=REALIGN, old="                            sys.exit(1)\n                        continue", new="                            sys.exit(1)", expect="collector-full-groups", functions=_COLLECT[:1]),
     dict(name="same in the leftover loop", file=REALIGN, old="                        sys.exit(1)\n                    continue", new="                        sys.exit(1)", expect="collector-leftover", functions=_COLLECT[1:]),
     dict(name="sentinel counted for results", file=REALIGN, old="                if out_string_obj is None:  # sentinel counter to count finished processes", new="                if out_string_obj is not None:  # sentinel counter to count finished processes", expect="collector-full-groups", functions=_COLLECT[:1], quick=False),
 ]
 PLAN["C11"] = dict(
     level="other",
-    functions=_COLLECT,
+    functions=_COLLECT + [(REALIGN, "realign_gaf#drain-full-groups"), (REALIGN, "realign_gaf#drain-leftover")],
     explanation="PROVED relative to the assumed multiprocessing environment (DESIGN 3.5: get(timeout) may raise Empty at ANY time, or returns the next "
                 "object of SOME worker, per-producer FIFO, None last; liveness observations are arbitrary): for every number of workers, every "
                 "number of results per worker and every resolution of those choices, both collector loops consume each dequeued object exactly "
                 "once in the iteration that dequeued it (no stale or unbound use), keep every received result in p_queue exactly once (ghost "
                 "bijection), count exactly the sentinels received (ghost done / not-done prefix counts, pairwise-monotone, no induction needed), "
-                "and can only finish when every worker's sentinel - hence, by FIFO, every result - has been received. BOUNDED: the priority-queue "
-                "drain (input order), batching, and byte-identity with the single-core output on scripted fake-mp schedules and real processes.",
-    trusted_base=["multiprocessing.Queue / Process behave as the environment contract of DESIGN 3.5 (assumed)", "queue.PriorityQueue.get returns a minimum (assumed)",
-                  "drain loops, batching, wfa_alignment: BOUNDED stand-in only"],
+                "and can only finish when every worker's sentinel - hence, by FIFO, every result - has been received. Both drain loops then write "
+                "every collected item exactly once, smallest priority first (= input order), leave the queue empty and never call get() on an "
+                "empty PriorityQueue (which would block for ever). BOUNDED: batching, and byte-identity with the single-core output on scripted fake-mp schedules and real processes.",
+    trusted_base=["multiprocessing.Queue / Process behave as the environment contract of DESIGN 3.5 (assumed)", "queue.PriorityQueue: get() removes and returns the smallest item, blocks on an empty queue (assumed; abstract state = content sorted by priority)",
+                  "the hand-over between the collector fragment (p_queue as the list of put() items) and the drain fragment (its sorted view) is the PriorityQueue abstraction (assumed)",
+                  "batching, wfa_alignment: BOUNDED stand-in only"],
     not_applicable_clauses=["corruption of the queue pipe by a worker killed during a write is outside the environment contract (see C13 known finding)"],
     mutations=_C11_MUT,
 )
@@ -334,7 +368,7 @@ PLAN["C13"] = dict(
                             "known finding 'worker-dies-mid-delivery' (known_findings.json): a worker killed in the middle of a pipe write blocks the parent inside Queue.get"],
     mutations=[
         dict(name="exit status 0 on worker failure", file=REALIGN, old="                            sys.exit(1)\n                        continue", new="                            sys.exit(0)\n                        continue", expect="collector-full-groups", functions=_COLLECT[:1]),
-    ] + _C11_MUT[:1],
+    ] + _C11_MUT[1:2],
 )
 
 PLAN["C02"] = dict(
